@@ -226,19 +226,6 @@ fn tailn<const N: usize>() {
     kani::cover!(N == 0 || (limit > 0 && (limit as u128) < c), "witness: tailn truncates");
 }
 
-/// cheaper variant of headn/tailn for 3 ranges: only the number of heights kept
-fn headn_tailn_count<const N: usize>() {
-    let b = any_bounds::<N>();
-    let r = build(&b);
-    let limit: u64 = kani::any();
-    let c = card(&b);
-    let want = if (limit as u128) < c { limit as u128 } else { c };
-    let t = if kani::any() { r.headn(limit) } else { r.tailn(limit) };
-    assert!(repr_ok(&t), "C17 headn/tailn: representation invariant broken");
-    assert!(rcard(&t) == want, "C17 headn/tailn: wrong number of heights");
-    kani::cover!(limit > 0 && (limit as u128) < c, "witness: truncation");
-}
-
 fn edges<const N: usize>() {
     let b = any_bounds::<N>();
     let r = build(&b);
@@ -323,7 +310,6 @@ for f,funcs,extra in un:
         tier = "quick" if n <= 1 else "thorough"
         shape = f"{n} stored ranges with free u64 bounds (invariant assumed); {extra}; probe height free u64"
         H(f"c17_{f}_n{n}", f"{f}::<{n}>()", tier, shape, funcs)
-H("c17_headn_tailn_count_n3", "headn_tailn_count::<3>()", "quick", "3 stored ranges with free u64 bounds (invariant assumed); limit free u64; headn or tailn (free choice); only the number of heights kept is checked", "BlockRanges::headn,BlockRanges::tailn,BlockRangeExt::{headn,tailn},BlockRanges::insert_relaxed")
 bi = [("union","<BlockRanges as BitOr>::bitor,AddAssign::add_assign,BlockRanges::insert_relaxed"),
       ("add","<BlockRanges as AddAssign<&BlockRanges>>::add_assign,BlockRanges::insert_relaxed"),
       ("difference","<BlockRanges as Sub>::sub,SubAssign::sub_assign,BlockRanges::remove_relaxed"),
